@@ -1,89 +1,368 @@
-/- C16 — second invariant, receive loop running: every other event. -/
-import TornadoModel.C16.Inv2Open
+/- C16 — second invariant: the effect of one external event (`act`) on a step-boundary state, together with the
+step marker it logs (the three step-boundary clauses are judged there). -/
+import TornadoModel.C16.Lemmas2
+import TornadoModel.C16.Inv2A
 namespace TornadoModel.C16
 open Spec
 
-/-- run one step on a concrete open state and judge every new event -/
-macro "c16_stepB" nb:ident peer:ident sc:ident g1:ident g2:ident g3:ident g4:ident : tactic => `(tactic|
-  (refine ⟨?_, ?_, ?_, ?_, fun _ => ⟨?_, ?_, ?_⟩⟩ <;>
-    simp [step, pump, act, enqueue, emit, openSt, pumpQ_cons, pumpQ_nil, handleIn, protoClose, closeStream, abort,
-      deliverClose, finishLoop, isClosing, actCloseTimer, actPingTimer, forallH, echoesPeerCode,
-      bothClosedSendsClose, teardownBothClosed, notifyCarriesPeerClose, neverBlocked_cons, peerOf, $peer:ident,
-      $nb:ident, $sc:ident, $g1:ident, $g2:ident, $g3:ident, $g4:ident, PeerOK, isOp, isClose, isAsyncDataOp]))
+/-- what is known at a step boundary -/
+structure AtB (s : St) : Prop where
+  link : Link s.inq s
+  inv : Inv s
+  pd : PD s
+  bd : Bd s
 
-theorem stepB_localClose (cfg : Cfg) (c : Option Nat) (r : Option Bytes) (hconn st waiting : Bool) (ping : Ping)
-    (gotPong : Bool) (log : List Ev) (hl : OpenLog st log) :
-    Inv2 (step cfg (openSt hconn st waiting ping gotPong log) (.localClose c r)) := by
-  obtain ⟨nb, peer, nd, nn, sc, g1, g2, g3, g4⟩ := hl
-  rcases cfg with ⟨side, pingOn, timeoutPos, gap⟩
-  cases side <;> cases hconn <;> cases st <;> c16_stepB nb peer sc g1 g2 g3 g4
+theorem AtB.ctFalse {s : St} (hb : AtB s) (hso : s.sopen = true) : s.ct = false := by
+  cases hx : s.ct with
+  | false => rfl
+  | true => have := hb.inv.ctClosed hx; rw [hso] at this; exact absurd this (by simp)
 
-theorem stepB_peerDisconnect (cfg : Cfg) (hconn st waiting : Bool) (ping : Ping)
-    (gotPong : Bool) (log : List Ev) (hl : OpenLog st log) :
-    Inv2 (step cfg (openSt hconn st waiting ping gotPong log) .peerDisconnect) := by
-  obtain ⟨nb, peer, nd, nn, sc, g1, g2, g3, g4⟩ := hl
-  rcases cfg with ⟨side, pingOn, timeoutPos, gap⟩
-  cases side <;> cases hconn <;> cases st <;> c16_stepB nb peer sc g1 g2 g3 g4
+theorem AtB.ctDown {s : St} (hb : AtB s) : s.ct = true → s.sopen = false := hb.inv.ctClosed
 
-theorem stepB_closeTimer (cfg : Cfg) (hconn st waiting : Bool) (ping : Ping)
-    (gotPong : Bool) (log : List Ev) (hl : OpenLog st log) :
-    Inv2 (step cfg (openSt hconn st waiting ping gotPong log) .closeTimer) := by
-  obtain ⟨nb, peer, nd, nn, sc, g1, g2, g3, g4⟩ := hl
-  rcases cfg with ⟨side, pingOn, timeoutPos, gap⟩
-  cases side <;> cases hconn <;> cases st <;> cases waiting <;> c16_stepB nb peer sc g1 g2 g3 g4
+/-- transport up at a step boundary: an on_message is in flight or the receive loop has read everything -/
+theorem AtB.quiet {s : St} (hb : AtB s) (hso : s.sopen = true) : s.blocked = true ∨ proj s.inq = [] := by
+  cases hbl : s.blocked with
+  | true => exact Or.inl rfl
+  | false =>
+    right
+    have hld : s.loopDone = false := by
+      cases hx : s.loopDone with
+      | false => rfl
+      | true => have := hb.inv.doneCt hx; rw [hb.ctFalse hso] at this; exact absurd this (by simp)
+    rw [hb.bd hbl hld]; rfl
 
-theorem stepB_pingTimer (cfg : Cfg) (hconn st waiting : Bool) (ping : Ping)
-    (gotPong : Bool) (log : List Ev) (hl : OpenLog st log) :
-    Inv2 (step cfg (openSt hconn st waiting ping gotPong log) .pingTimer) := by
-  obtain ⟨nb, peer, nd, nn, sc, g1, g2, g3, g4⟩ := hl
-  rcases cfg with ⟨side, pingOn, timeoutPos, gap⟩
-  cases ping <;> cases gotPong <;> cases timeoutPos <;> cases gap <;> cases st <;>
-    c16_stepB nb peer sc g1 g2 g3 g4
+/-- transport down: the observer's verdict on the peer's close is final -/
+theorem AtB.peerOf_cons {s : St} (hb : AtB s) (hso : s.sopen = false) (e : Ev) : peerOf (e :: s.log) = peerOf s.log :=
+  peerOf_cons_of_decided e s.log (obs_decided_of_streamClosed _ (hb.inv.closedDown hso))
 
-theorem stepB_timer (cfg : Cfg) (hconn st waiting : Bool) (ping : Ping)
-    (gotPong : Bool) (log : List Ev) (hl : OpenLog st log) :
-    Inv2 (step cfg (openSt hconn st waiting ping gotPong log) .timer) := by
-  obtain ⟨nb, peer, nd, nn, sc, g1, g2, g3, g4⟩ := hl
-  rcases cfg with ⟨side, pingOn, timeoutPos, gap⟩
-  cases waiting
-  · cases ping <;> cases gotPong <;> cases timeoutPos <;> cases gap <;> cases st <;>
-      c16_stepB nb peer sc g1 g2 g3 g4
-  · cases side <;> cases hconn <;> cases st <;> c16_stepB nb peer sc g1 g2 g3 g4
+/-- the three step-boundary clauses hold for a step marker logged now -/
+theorem boundary_clauses {s : St} (hb : AtB s) (o : Op) :
+    bothClosedSendsClose (.op o) s.log = true ∧ teardownBothClosed (.op o) s.log = true ∧
+    notifyWhenDownB (.op o) s.log = true := by
+  cases hso : s.sopen with
+  | true =>
+    have hu := link_now_undecided hb.link hso (hb.quiet hso)
+    have hnd : s.log.any isStreamClosed = false := by
+      cases hx : s.log.any isStreamClosed with
+      | false => rfl
+      | true => have := hb.inv.downClosed hx; rw [hso] at this; exact absurd this (by simp)
+    simp [bothClosedSendsClose, teardownBothClosed, notifyWhenDownB, isOp, hu, hnd]
+  | false =>
+    have hok := hb.link.dead hso
+    have hdn := hb.inv.closedDown hso
+    have h5 : notifyWhenDownB (.op o) s.log = true := by
+      simp only [notifyWhenDownB, isOp, Bool.true_and, inFlight, hb.link.blk]
+      cases hbl : s.blocked with
+      | true => simp
+      | false =>
+        have := hb.inv.doneNotify (hb.pd hbl hso)
+        simp [this]
+    unfold PeerOK at hok
+    cases hp : peerOf s.log with
+    | undecided => rw [hp] at hok; exact hok.elim
+    | downFirst => simp [bothClosedSendsClose, teardownBothClosed, isOp, hp, h5]
+    | got c r wf =>
+      rw [hp] at hok
+      cases wf with
+      | false => simp [bothClosedSendsClose, teardownBothClosed, isOp, hp, h5, hdn]
+      | true => simp [bothClosedSendsClose, teardownBothClosed, isOp, hp, h5, hdn, hok.2.2 rfl]
 
-theorem stepB_recvPong (cfg : Cfg) (hconn st waiting : Bool) (ping : Ping)
-    (gotPong : Bool) (log : List Ev) (hl : OpenLog st log) :
-    Inv2 (step cfg (openSt hconn st waiting ping gotPong log) .recvPong) := by
-  obtain ⟨nb, peer, nd, nn, sc, g1, g2, g3, g4⟩ := hl
-  cases st <;> c16_stepB nb peer sc g1 g2 g3 g4
+/-- the clauses on the history with a step marker on top -/
+theorem marker_clauses {s : St} (hb : AtB s) (o : Op) :
+    forallH echoesPeerCode (.op o :: s.log) = true ∧ forallH bothClosedSendsClose (.op o :: s.log) = true ∧
+    forallH teardownBothClosed (.op o :: s.log) = true ∧ forallH notifyCarriesPeerClose (.op o :: s.log) = true ∧
+    forallH notifyWhenDownB (.op o :: s.log) = true := by
+  obtain ⟨b2, b3, b5⟩ := boundary_clauses hb o
+  refine ⟨?_, ?_, ?_, ?_, ?_⟩
+  · simp [forallH, echoesPeerCode, hb.link.g1]
+  · rw [forallH, b2, hb.link.g2]; rfl
+  · rw [forallH, b3, hb.link.g3]; rfl
+  · simp [forallH, notifyCarriesPeerClose, hb.link.g4]
+  · rw [forallH, b5, hb.link.g5]; rfl
 
-theorem stepB_recvPing (cfg : Cfg) (p : Bytes) (hconn st waiting : Bool) (ping : Ping)
-    (gotPong : Bool) (log : List Ev) (hl : OpenLog st log) :
-    Inv2 (step cfg (openSt hconn st waiting ping gotPong log) (.recvPing p)) := by
-  obtain ⟨nb, peer, nd, nn, sc, g1, g2, g3, g4⟩ := hl
-  cases st <;> c16_stepB nb peer sc g1 g2 g3 g4
+/-- the step marker of an event the observer ignores -/
+theorem link_emit_op {s : St} (hb : AtB s) (o : Op) (hn : ∀ ob : Obs, ob.upd (.op o) = ob) :
+    Link s.inq (emit (.op o) s) := by
+  obtain ⟨m1, m2, m3, m4, m5⟩ := marker_clauses hb o
+  obtain ⟨h1, h2, h3, h4, h5, _, _, _, _, _⟩ := hb.link
+  have ho : obs (emit (.op o) s).log = obs s.log := by
+    show obs (.op o :: s.log) = obs s.log
+    rw [obs_cons]; exact hn _
+  have hc : (emit (.op o) s).log.any isClose = s.log.any isClose := rfl
+  constructor
+  · rw [ho]; exact h1
+  · rw [ho]; exact h2
+  · exact h3
+  · intro hx; rw [ho, hc]; exact h4 hx
+  · intro hx
+    have := h5 hx
+    unfold PeerOK peerOf at *
+    rw [ho, hc]
+    exact this
+  · exact m1
+  · exact m2
+  · exact m3
+  · exact m4
+  · exact m5
 
-theorem stepB_recvDataSync (cfg : Cfg) (hconn st waiting : Bool) (ping : Ping)
-    (gotPong : Bool) (log : List Ev) (hl : OpenLog st log) :
-    Inv2 (step cfg (openSt hconn st waiting ping gotPong log) (.recvData false)) := by
-  obtain ⟨nb, peer, nd, nn, sc, g1, g2, g3, g4⟩ := hl
-  cases st <;> c16_stepB nb peer sc g1 g2 g3 g4
+/-- an inbound frame arrives (anything but the peer's FIN) -/
+theorem link_arrive {s : St} (hb : AtB s) (o : Op) (i : In) (hi : i ≠ .eof)
+    (hupd : ∀ ob : Obs, ob.upd (.op o) = if ob.gone then ob else { ob with pend := ob.pend ++ proj [i] }) :
+    Link (enqueue i (emit (.op o) s)).inq (enqueue i (emit (.op o) s)) := by
+  obtain ⟨m1, m2, m3, m4, m5⟩ := marker_clauses hb o
+  have hlink := hb.link
+  have hpc : s.sopen = false → peerOf (.op o :: s.log) = peerOf s.log := fun hx => hb.peerOf_cons hx _
+  obtain ⟨h1, h2, h3, h4, h5, _, _, _, _, _⟩ := hlink
+  have hie : (i == In.eof) = false := by
+    cases i <;> first | rfl | exact absurd rfl hi
+  cases hg : s.peerGone with
+  | true =>
+    have he : enqueue i (emit (.op o) s) = emit (.op o) s := by simp [enqueue, emit, hg]
+    have ho : obs (.op o :: s.log) = obs s.log := by rw [obs_cons, hupd, h2, hg]; rfl
+    rw [he]
+    constructor
+    · show (obs (.op o :: s.log)).inflight = s.blocked
+      rw [ho]; exact h1
+    · show (obs (.op o :: s.log)).gone = s.peerGone
+      rw [ho]; exact h2
+    · exact h3
+    · intro hx
+      show (obs (.op o :: s.log)).pend = proj s.inq ∧ (obs (.op o :: s.log)).peer = .undecided ∧ s.code = none ∧
+        s.reason = none ∧ (s.st = true → (Ev.op o :: s.log).any isClose = true)
+      rw [ho]; exact h4 hx
+    · intro hx
+      have := h5 hx
+      unfold PeerOK at *
+      show match peerOf (.op o :: s.log) with
+        | .undecided => False
+        | .downFirst => s.code = none ∧ s.reason = none
+        | .got c r wf => s.code = c ∧ s.reason = r ∧ (wf = true → (Ev.op o :: s.log).any isClose = true)
+      rw [hpc hx]; exact this
+    · exact m1
+    · exact m2
+    · exact m3
+    · exact m4
+    · exact m5
+  | false =>
+    have he : enqueue i (emit (.op o) s) = { emit (.op o) s with inq := s.inq ++ [i] } := by
+      simp [enqueue, emit, hg, hie]
+    have ho : obs (.op o :: s.log) = { obs s.log with pend := (obs s.log).pend ++ proj [i] } := by
+      rw [obs_cons, hupd]; simp [h2, hg]
+    rw [he]
+    constructor
+    · show (obs (.op o :: s.log)).inflight = s.blocked
+      rw [ho]; exact h1
+    · show (obs (.op o :: s.log)).gone = s.peerGone
+      rw [ho]; exact h2
+    · intro _ x hx
+      rcases List.mem_append.mp hx with hx | hx
+      · exact h3 hg x hx
+      · rw [List.mem_singleton.mp hx]; exact hi
+    · intro hx
+      obtain ⟨p1, p2, p3, p4, p5⟩ := h4 hx
+      show (obs (.op o :: s.log)).pend = proj (s.inq ++ [i]) ∧ (obs (.op o :: s.log)).peer = .undecided ∧
+        s.code = none ∧ s.reason = none ∧ (s.st = true → (Ev.op o :: s.log).any isClose = true)
+      rw [ho, proj_append _ _ (h3 hg)]
+      exact ⟨by rw [← p1], p2, p3, p4, p5⟩
+    · intro hx
+      have := h5 hx
+      unfold PeerOK at *
+      show match peerOf (.op o :: s.log) with
+        | .undecided => False
+        | .downFirst => s.code = none ∧ s.reason = none
+        | .got c r wf => s.code = c ∧ s.reason = r ∧ (wf = true → (Ev.op o :: s.log).any isClose = true)
+      rw [hpc hx]; exact this
+    · exact m1
+    · exact m2
+    · exact m3
+    · exact m4
+    · exact m5
 
-theorem stepB_release (cfg : Cfg) (hconn st waiting : Bool) (ping : Ping)
-    (gotPong : Bool) (log : List Ev) (hl : OpenLog st log) :
-    Inv2 (step cfg (openSt hconn st waiting ping gotPong log) .release) := by
-  obtain ⟨nb, peer, nd, nn, sc, g1, g2, g3, g4⟩ := hl
-  cases st <;> c16_stepB nb peer sc g1 g2 g3 g4
+/-- the peer's FIN arrives -/
+theorem link_disconnect {s : St} (hb : AtB s) :
+    Link (enqueue .eof (emit (.op .peerDisconnect) s)).inq (enqueue .eof (emit (.op .peerDisconnect) s)) := by
+  obtain ⟨m1, m2, m3, m4, m5⟩ := marker_clauses hb .peerDisconnect
+  have hpc : s.sopen = false → peerOf (.op .peerDisconnect :: s.log) = peerOf s.log := fun hx => hb.peerOf_cons hx _
+  obtain ⟨h1, h2, h3, h4, h5, _, _, _, _, _⟩ := hb.link
+  have ho : obs (.op .peerDisconnect :: s.log) = { obs s.log with gone := true } := rfl
+  have hdead : s.sopen = false →
+      match peerOf (.op .peerDisconnect :: s.log) with
+      | .undecided => False
+      | .downFirst => s.code = none ∧ s.reason = none
+      | .got c r wf => s.code = c ∧ s.reason = r ∧ (wf = true → (Ev.op .peerDisconnect :: s.log).any isClose = true) := by
+    intro hx
+    have := h5 hx
+    unfold PeerOK at this
+    rw [hpc hx]; exact this
+  cases hg : s.peerGone with
+  | true =>
+    have he : enqueue .eof (emit (.op .peerDisconnect) s) = emit (.op .peerDisconnect) s := by simp [enqueue, emit, hg]
+    rw [he]
+    constructor
+    · show (obs (.op .peerDisconnect :: s.log)).inflight = s.blocked
+      rw [ho]; exact h1
+    · show (obs (.op .peerDisconnect :: s.log)).gone = s.peerGone
+      rw [ho, hg]
+    · intro hx
+      have hx' : s.peerGone = false := hx
+      rw [hg] at hx'; exact absurd hx' (by simp)
+    · intro hx
+      show (obs (.op .peerDisconnect :: s.log)).pend = proj s.inq ∧ (obs (.op .peerDisconnect :: s.log)).peer = .undecided ∧
+        s.code = none ∧ s.reason = none ∧ (s.st = true → (Ev.op .peerDisconnect :: s.log).any isClose = true)
+      rw [ho]; exact h4 hx
+    · exact hdead
+    · exact m1
+    · exact m2
+    · exact m3
+    · exact m4
+    · exact m5
+  | false =>
+    have he : enqueue .eof (emit (.op .peerDisconnect) s) =
+        { emit (.op .peerDisconnect) s with inq := s.inq ++ [.eof], peerGone := true } := by
+      simp [enqueue, emit, hg]
+    rw [he]
+    constructor
+    · show (obs (.op .peerDisconnect :: s.log)).inflight = s.blocked
+      rw [ho]; exact h1
+    · show (obs (.op .peerDisconnect :: s.log)).gone = true
+      rw [ho]
+    · intro hx; exact absurd hx (by simp)
+    · intro hx
+      obtain ⟨p1, p2, p3, p4, p5⟩ := h4 hx
+      show (obs (.op .peerDisconnect :: s.log)).pend = proj (s.inq ++ [.eof]) ∧
+        (obs (.op .peerDisconnect :: s.log)).peer = .undecided ∧
+        s.code = none ∧ s.reason = none ∧ (s.st = true → (Ev.op .peerDisconnect :: s.log).any isClose = true)
+      rw [ho, proj_append _ _ (h3 hg)]
+      exact ⟨by simp [proj, p1], p2, p3, p4, p5⟩
+    · exact hdead
+    · exact m1
+    · exact m2
+    · exact m3
+    · exact m4
+    · exact m5
 
-theorem stepB_appWrite (cfg : Cfg) (hconn st waiting : Bool) (ping : Ping)
-    (gotPong : Bool) (log : List Ev) (hl : OpenLog st log) :
-    Inv2 (step cfg (openSt hconn st waiting ping gotPong log) .appWrite) := by
-  obtain ⟨nb, peer, nd, nn, sc, g1, g2, g3, g4⟩ := hl
-  cases hconn <;> cases st <;> c16_stepB nb peer sc g1 g2 g3 g4
+/-- the asynchronous on_message returns -/
+theorem link_release {s : St} (hb : AtB s) :
+    Link s.inq { emit (.op .release) s with blocked := false } := by
+  obtain ⟨m1, m2, m3, m4, m5⟩ := marker_clauses hb .release
+  have hpc : s.sopen = false → peerOf (.op .release :: s.log) = peerOf s.log := fun hx => hb.peerOf_cons hx _
+  obtain ⟨h1, h2, h3, h4, h5, _, _, _, _, _⟩ := hb.link
+  have ho : obs (.op .release :: s.log) = { obs s.log with inflight := false } := rfl
+  constructor
+  · show (obs (.op .release :: s.log)).inflight = false
+    rw [ho]
+  · show (obs (.op .release :: s.log)).gone = s.peerGone
+    rw [ho]; exact h2
+  · exact h3
+  · intro hx
+    show (obs (.op .release :: s.log)).pend = proj s.inq ∧ (obs (.op .release :: s.log)).peer = .undecided ∧
+      s.code = none ∧ s.reason = none ∧ (s.st = true → (Ev.op .release :: s.log).any isClose = true)
+    rw [ho]; exact h4 hx
+  · intro hx
+    have := h5 hx
+    unfold PeerOK at *
+    show match peerOf (.op .release :: s.log) with
+      | .undecided => False
+      | .downFirst => s.code = none ∧ s.reason = none
+      | .got c r wf => s.code = c ∧ s.reason = r ∧ (wf = true → (Ev.op .release :: s.log).any isClose = true)
+    rw [hpc hx]; exact this
+  · exact m1
+  · exact m2
+  · exact m3
+  · exact m4
+  · exact m5
 
-theorem stepB_probe (cfg : Cfg) (hconn st waiting : Bool) (ping : Ping)
-    (gotPong : Bool) (log : List Ev) (hl : OpenLog st log) :
-    Inv2 (step cfg (openSt hconn st waiting ping gotPong log) .probe) := by
-  obtain ⟨nb, peer, nd, nn, sc, g1, g2, g3, g4⟩ := hl
-  cases st <;> c16_stepB nb peer sc g1 g2 g3 g4
+/-! ### the timers -/
+
+theorem link_actCloseTimer {q : List In} {s : St} (h : Link q s)
+    (hq : s.sopen = true → s.blocked = true ∨ proj q = []) :
+    Link q (actCloseTimer s) ∧ (actCloseTimer s).inq = s.inq := by
+  unfold actCloseTimer
+  split
+  · exact ⟨link_abort (link_emit_inert .closeDue rfl h) hq, (abort_keeps _).2.2.2.2.1⟩
+  · exact ⟨h, rfl⟩
+
+theorem link_actPingTimer {q : List In} {s : St} (cfg : Cfg) (h : Link q s) (hct : s.ct = true → s.sopen = false)
+    (hq : s.sopen = true → s.blocked = true ∨ proj q = []) :
+    Link q (actPingTimer cfg s) ∧ (actPingTimer cfg s).inq = s.inq := by
+  have hping : Link q (emit .pingFrame { s with gotPong := false }) :=
+    link_emit_inert .pingFrame rfl (link_frame h rfl rfl rfl rfl rfl (fun _ => rfl) rfl)
+  unfold actPingTimer
+  split
+  · exact ⟨h, rfl⟩
+  · split
+    · simp only []
+      split
+      · exact ⟨link_frame hping rfl rfl rfl rfl rfl (fun _ => rfl) rfl, rfl⟩
+      · exact ⟨hping, rfl⟩
+    · exact ⟨link_frame h rfl rfl rfl rfl rfl (fun _ => rfl) rfl, rfl⟩
+  · split
+    · exact ⟨link_protoClose _ _ h hct hq, (protoClose_keeps _ _ _).2.2.2.2.1⟩
+    · split
+      · exact ⟨link_frame h rfl rfl rfl rfl rfl (fun _ => rfl) rfl, rfl⟩
+      · split
+        · exact ⟨hping, rfl⟩
+        · exact ⟨link_frame h rfl rfl rfl rfl rfl (fun _ => rfl) rfl, rfl⟩
+
+/-! ### every event -/
+
+/-- `act`, with the step marker, keeps the link (with the queue as `act` leaves it) -/
+theorem link_act (cfg : Cfg) (o : Op) (s : St) (hb : AtB s) :
+    Link (act cfg o (emit (.op o) s)).inq (act cfg o (emit (.op o) s)) := by
+  have hq : (emit (.op o) s).sopen = true → (emit (.op o) s).blocked = true ∨ proj s.inq = [] := hb.quiet
+  have hct : (emit (.op o) s).ct = true → (emit (.op o) s).sopen = false := hb.ctDown
+  cases o with
+  | localClose c r =>
+    have h0 := link_emit_op hb (.localClose c r) (fun _ => rfl)
+    simp only [act]
+    split
+    · show Link (protoClose c r _).inq _
+      rw [(protoClose_keeps _ _ _).2.2.2.2.1]
+      exact link_frame (link_protoClose c r h0 hct hq) rfl rfl rfl rfl rfl (fun _ => rfl) rfl
+    · exact h0
+  | recvClose p ok =>
+    exact link_arrive hb (.recvClose p ok) (.close p ok) (by simp) (fun _ => rfl)
+  | peerDisconnect => exact link_disconnect hb
+  | closeTimer =>
+    have h0 := link_emit_op hb .closeTimer (fun _ => rfl)
+    obtain ⟨h1, h2⟩ := link_actCloseTimer h0 hq
+    show Link (actCloseTimer _).inq _
+    rw [h2]; exact h1
+  | pingTimer =>
+    have h0 := link_emit_op hb .pingTimer (fun _ => rfl)
+    obtain ⟨h1, h2⟩ := link_actPingTimer cfg h0 hct hq
+    show Link (actPingTimer cfg _).inq _
+    rw [h2]; exact h1
+  | timer =>
+    have h0 := link_emit_op hb .timer (fun _ => rfl)
+    simp only [act]
+    split
+    · obtain ⟨h1, h2⟩ := link_actCloseTimer h0 hq
+      rw [h2]; exact h1
+    · obtain ⟨h1, h2⟩ := link_actPingTimer cfg h0 hct hq
+      rw [h2]; exact h1
+  | recvPong =>
+    exact link_arrive hb .recvPong .pong (by simp) (fun ob => by
+      rcases ob with ⟨pe, pd, fl, gn⟩
+      cases gn <;> simp [Obs.upd, proj])
+  | recvPing p =>
+    exact link_arrive hb (.recvPing p) (.ping p) (by simp) (fun ob => by
+      rcases ob with ⟨pe, pd, fl, gn⟩
+      cases gn <;> simp [Obs.upd, proj])
+  | recvData a =>
+    exact link_arrive hb (.recvData a) (.data a) (by simp) (fun _ => rfl)
+  | release => exact link_release hb
+  | appWrite =>
+    have h0 := link_emit_op hb .appWrite (fun _ => rfl)
+    simp only [act]
+    split
+    · exact link_emit_inert _ rfl (link_emit_inert _ rfl h0)
+    · exact link_emit_inert _ rfl h0
+  | probe =>
+    have h0 := link_emit_op hb .probe (fun _ => rfl)
+    simp only [act]
+    split
+    · exact h0
+    · exact link_emit_inert _ rfl h0
 
 end TornadoModel.C16
